@@ -77,6 +77,7 @@ def main(tier):
     packed = shapes.pack(sh, "Pk")
     packed.append((shapes.pattern_package(4 if tier == "quick" else 5)[0], []))
     packed.append((shapes.buffer_package()[0], []))
+    packed.append((shapes.bigschema_package(), []))
     packed += shapes.pack(py_only_shapes(), PY_ONLY)
     chk.extra.update({"shapes": len(sh), "depth": d, "k": 1 if tier == "quick" else 2})
     roundtrip.run_packages(chk, packed, worker)
